@@ -79,6 +79,30 @@ def fn_id(f):
     return (getattr(f, "__module__", "?").rsplit(".", 1)[-1], getattr(f, "__name__", "?"))
 
 
+SHAPES = ["list", "tuple", "set", "frozenset", "generator", "iterator", "dict-keys", "map"]
+
+
+def shaped(names, shape):
+    """The same names as another kind of iterable (one-shot ones included)."""
+    if names is None:
+        return None
+    if shape == "tuple":
+        return tuple(names)
+    if shape == "set":
+        return set(names)
+    if shape == "frozenset":
+        return frozenset(names)
+    if shape == "generator":
+        return (x for x in names)
+    if shape == "iterator":
+        return iter(list(names))
+    if shape == "dict-keys":
+        return dict.fromkeys(names).keys()
+    if shape == "map":
+        return map(str, names)
+    return list(names)
+
+
 def split_registry(reg):
     kws = [f for f in reg if taps.decoder_name(f).startswith("kw:")]
     ans = [f for f in reg if not taps.decoder_name(f).startswith("kw:")]
@@ -234,21 +258,25 @@ def run_shard(spec, ctx):
         return
     mods = sorted(astmap)
     if gen in ("inex-sys", "inex-rand"):
-        def judge(include, exclude, as_gen=False):
-            case = {"kind": "inex", "include": include, "exclude": exclude, "gen": as_gen}
+        def judge(include, exclude, as_gen=False, shape=None, via="get_analyzers"):
+            shape = shape or ("generator" if as_gen else "list")
+            case = {"kind": "inex", "include": include, "exclude": exclude, "shape": shape, "via": via}
             if not ctx.begin(case):
                 return
             ctx.evaluated()
             ctx.count("include_exclude_configs")
-            inc_arg = (x for x in include) if (as_gen and include is not None) else include
-            exc_arg = (x for x in exclude) if (as_gen and exclude is not None) else exclude
+            ctx.count("argument_shape:" + shape)
+            inc_arg, exc_arg = shaped(include, shape), shaped(exclude, shape)
             if include is not None and len(include) == 0:
                 ctx.count("empty_include_list(not asserted)")
                 return
-            ans = regmod.get_analyzers(include=inc_arg, exclude=exc_arg)
+            if via == "build_registry":
+                _, ans = split_registry(regmod.build_registry(include=inc_arg, exclude=exc_arg))
+            else:
+                ans = regmod.get_analyzers(include=inc_arg, exclude=exc_arg)
             sel = [m for m in mods if (include is None or m in include) and not (exclude and m in exclude)]
             want = [(m, f) for m in sel for f in astmap[m]]
-            check_analyzers(ans, want, reporter(case), f"get_analyzers(include={include}, exclude={exclude})")
+            check_analyzers(ans, want, reporter(case), f"{via}(include={include}, exclude={exclude}) passed as {shape}")
             ctx.nontrivial(repr((include, exclude, as_gen)))
             if ctx.counters["include_exclude_configs"] % 101 == 1:
                 ctx.sample({"include": include, "exclude": exclude, "expected_decoders": len(want)})
@@ -269,6 +297,12 @@ def run_shard(spec, ctx):
             judge(["nosuchmodule"], None)
             judge(None, ["nosuchmodule"])
             judge(["shell", "nosuchmodule"], ["ell", "power"])
+            # the parameters are documented as iterables of names: every shape of iterable, through both entry points
+            for shape in SHAPES:
+                for via in ("get_analyzers", "build_registry"):
+                    judge([mods[0], mods[3]], None, shape=shape, via=via)
+                    judge(None, [mods[1], mods[2]], shape=shape, via=via)
+                    judge(mods[:5], [mods[1], mods[7]], shape=shape, via=via)
             # through build_registry as well, incl. include lists lying entirely inside the exclude list
             for inc, exc in [([m], [m]) for m in mods] + [(mods[:2], mods[:3]), (mods[:3], mods[:2]), ([mods[0]], mods), (mods, [mods[0]])]:
                 case2 = {"kind": "inex", "include": inc, "exclude": exc, "via": "build_registry"}
@@ -288,7 +322,7 @@ def run_shard(spec, ctx):
             pool = mods + ["nosuch", "shel", "powershell.py", "decoders.shell", "SHELL"]
             inc = None if r.random() < 0.35 else r.sample(pool, r.randint(1, 8))
             exc = None if r.random() < 0.35 else r.sample(pool, r.randint(0, 8))
-            judge(inc, exc, as_gen=r.random() < 0.3)
+            judge(inc, exc, shape=r.choice(SHAPES), via=r.choice(["get_analyzers", "get_analyzers", "build_registry"]))
         return
     if gen == "build-seq":
         # histories of build_registry calls in ONE process (default keyword directory): every result must be exactly
@@ -395,7 +429,11 @@ def replay(case, ctx):
         ctx.evaluated()
         if include is not None and len(include) == 0:
             return
-        ans = regmod.get_analyzers(include=include, exclude=exclude)
+        inc_arg, exc_arg = shaped(include, case.get("shape", "list")), shaped(exclude, case.get("shape", "list"))
+        if case.get("via") == "build_registry":
+            _, ans = split_registry(regmod.build_registry(include=inc_arg, exclude=exc_arg))
+        else:
+            ans = regmod.get_analyzers(include=inc_arg, exclude=exc_arg)
         sel = [m for m in mods if (include is None or m in include) and not (exclude and m in exclude)]
         check_analyzers(ans, [(m, f) for m in sel for f in astmap[m]], lambda k, m: ctx.violation(k, m, case), "replay")
         return
